@@ -33,7 +33,7 @@ T = {
             'schedule per scenario exhaustively, generated multi-preemption schedules beyond; each response compared with the solo response',
             'interleavings at Python line granularity under the GIL', 'schedule enumeration + PBT over schedules, differential vs solo run', '5/C08'),
     'C09': ('exploration', 'stateful machine over request kinds + all ordered pairs; response k compared with the same request on a fresh app; '
-            'weakref census for retention', 'retention: <=3 live per-request objects and no growth between N=50 and N=400', 'stateful PBT, differential vs fresh app; weakref census', '5/C09'),
+            'weakref census for retention', 'retention: <=10 live per-request objects, no growth between N=160 and N=400, <=40 more gc objects; pair-grid references from fresh processes', 'stateful PBT, differential vs fresh app; weakref census', '5/C09'),
     'C10': ('exploration', 'generated arrangements of 2-3 apps (nested, alternating, copy(), construction while serving), probes before/after the foreign '
             'operation, single-threaded and interleaved with the scheduler', 'see known findings for the open defect', 'PBT over arrangement programs, differential vs solo', '5/C10'),
     'C11': ('exploration', 'rule-based state machine of router edits against a survivor model; after each step every probe path compared with a router '
@@ -95,6 +95,10 @@ def main():
              'kind_free_text': 'property-based generation, stateful machines, shrinking; seeded from VERIF_SEED'},
             {'name': 'enumeration', 'path': '/verif/vlib', 'serves_properties': [c['property_id'] for c in checks],
              'kind_free_text': 'exhaustive small-scope enumeration of cut positions / truncations / schedules / histories'},
+            {'name': 'atheris', 'path': '/verif/.deps/atheris', 'serves_properties': [p for p in ('C05', 'C06', 'C12') if any(c['property_id'] == p for c in checks)],
+             'kind_free_text': 'coverage-guided libFuzzer campaigns (thorough tier only) with the semantic oracle inside the target; installed offline by setup.sh'},
+            {'name': 'scheduler', 'path': '/verif/vlib/sched.py', 'serves_properties': [p for p in ('C08', 'C10', 'C15') if any(c['property_id'] == p for c in checks)],
+             'kind_free_text': 'deterministic sys.settrace thread scheduler: schedules are data (enumerated / generated), not timing'},
         ],
         'checks': checks,
         'not_applicable': na,
